@@ -34,7 +34,7 @@ type verifQueueIO struct {
 	u32    []int
 }
 
-func (q *verifQueueIO) SendByte(val byte) error { q.bytes = append(q.bytes, val); return nil }
+func (q *verifQueueIO) SendByte(val byte) error  { q.bytes = append(q.bytes, val); return nil }
 func (q *verifQueueIO) SendUint32(val int) error { q.u32 = append(q.u32, val); return nil }
 func (q *verifQueueIO) SendData(val []byte) error {
 	q.data = append(q.data, append([]byte(nil), val...))
